@@ -175,6 +175,9 @@ impl<Db: Database> Storage<Db> {
             while *clones != 1 {
                 clones = self.handle.coordinate.cvar.wait(clones);
             }
+            // Still holding the `clones` lock: the writer proceeds with this many handles alive.
+            #[cfg(feature = "verif-hooks")]
+            crate::verif::proto("writer_proceeds", None, None, [*clones as u64, 0, 0, 0], "");
         }
 
         // The ref count on the `Arc` should now be 1
